@@ -7,6 +7,23 @@ import QV.Proofs.WriterContent
 namespace QV.Writer
 open QV QV.Wire QV.Spec QV.ServerSafety
 
+/-- two lists related element by element -/
+inductive All2 {α β : Type} (R : α → β → Prop) : List α → List β → Prop
+  | nil : All2 R [] []
+  | cons {a b as bs} (h : R a b) (t : All2 R as bs) : All2 R (a :: as) (b :: bs)
+
+theorem All2.length {α β : Type} {R : α → β → Prop} {as : List α} {bs : List β} (h : All2 R as bs) :
+    as.length = bs.length := by
+  induction h with
+  | nil => rfl
+  | cons _ _ ih => simp [ih]
+
+theorem All2.append {α β : Type} {R : α → β → Prop} {as as' : List α} {bs bs' : List β} (h : All2 R as bs)
+    (h' : All2 R as' bs') : All2 R (as ++ as') (bs ++ bs') := by
+  induction h with
+  | nil => exact h'
+  | cons hr _ ih => exact .cons hr ih
+
 theorem be16_of_bytesAt_mod {msg : Bytes} {pos n : Nat} (h : BytesAt msg pos (u16be n)) :
     be16 msg pos = n % 65536 := by
   have h0 := bytesAt_getD h (i := 0) (by simp [u16be])
@@ -55,5 +72,118 @@ theorem item_decodes_name {s : State} {a k : Nat} {m : CMode} {n : WName} (hw : 
     rw [hcp] at hm
     have : n.labels = ls' := labelsMatch_cp_eq hm
     rw [← this]; rfl
+
+
+theorem specField32_of_bytesAt {m : Bytes} {i n : Nat} (h : BytesAt m i (u32be n)) :
+    specField32 m i = some (n % 4294967296) := by
+  have hl : (u32be n).length = 4 := rfl
+  have g : ∀ j (hj : j < 4), m[i + j]? = some ((u32be n)[j]'(by rw [hl]; exact hj)) :=
+    fun j hj => bytesAt_get h (by rw [hl]; exact hj)
+  have g0 := g 0 (by omega); have g1 := g 1 (by omega); have g2 := g 2 (by omega); have g3 := g 3 (by omega)
+  simp only [Nat.add_zero] at g0
+  unfold specField32 specField16
+  rw [g0, g1, show i + 2 = i + 2 from rfl, g2, show i + 2 + 1 = i + 3 by omega, g3]
+  simp only [u32be, List.getElem_cons_zero, List.getElem_cons_succ, UInt8.toNat_ofNat', Option.some.injEq]
+  omega
+
+/-- a decoded question is the question given -/
+def QMatch (it : QItC) (dq : DQuestion) : Prop :=
+  dq.qname.map lowerU8 = it.q.qname.wire.map lowerU8 ∧ (it.m ≠ .standard → dq.qname = it.q.qname.wire) ∧
+  dq.qtype = it.q.qtype % 65536 ∧ dq.qclass = it.q.qclass % 65536
+
+/-- a decoded record is the record given (owner, TYPE, CLASS, TTL) -/
+def RMatch (it : RItC) (dr : DRr) : Prop :=
+  dr.owner.map lowerU8 = it.r.owner.wire.map lowerU8 ∧ (it.m ≠ .standard → dr.owner = it.r.owner.wire) ∧
+  dr.ty = it.r.ty % 65536 ∧ dr.cls = it.r.cls % 65536 ∧ dr.rawTtl = it.r.ttl % 4294967296 ∧ dr.pos = it.a
+
+theorem bytesAt_extract_prefix {o : Bytes} {c p : Nat} {d : List UInt8} (hc : c ≤ o.size) (h : BytesAt o p d)
+    (hp : p + d.length ≤ c) : BytesAt (o.extract 0 c) p d := by
+  intro i hi
+  rw [extract_prefix_get o c hc _ (by omega)]
+  exact h i hi
+
+theorem decodeQuestions_chainC (s : State) (hw : WInv s) :
+    ∀ (qs : List QItC) (p e : Nat), QChainC s qs p e → e ≤ s.cursor →
+      ∃ l, decodeQuestions (s.octets.extract 0 s.cursor) qs.length p = some (l, e) ∧ All2 QMatch qs l := by
+  have hcs : s.cursor ≤ s.octets.size := Nat.le_trans hw.cur_av hw.av_size
+  have hsz := extract_size s.octets s.cursor hcs
+  intro qs
+  induction qs with
+  | nil => intro p e h _; exact ⟨[], by simp [decodeQuestions, QChainC] at h ⊢; exact h, .nil⟩
+  | cons x r ih =>
+    intro p e h he
+    obtain ⟨h1, ⟨hit, hnm, hby⟩, h3⟩ := h
+    subst h1
+    obtain ⟨w, hd, hcase, hex⟩ := item_decodes_name hw hit hnm
+    have hle := qchainC_le h3
+    obtain ⟨l, hl, hfa⟩ := ih _ _ h3 he
+    have hl2 : ∀ y, (u16be y).length = 2 := fun _ => rfl
+    obtain ⟨b1, b2⟩ := bytesAt_append hby
+    rw [hl2] at b2
+    have e1 : be16 (s.octets.extract 0 s.cursor) (x.a + x.k) = x.q.qtype % 65536 :=
+      be16_of_bytesAt_mod (bytesAt_extract_prefix hcs b1 (by rw [hl2]; omega))
+    have e2 : be16 (s.octets.extract 0 s.cursor) (x.a + x.k + 2) = x.q.qclass % 65536 :=
+      be16_of_bytesAt_mod (bytesAt_extract_prefix hcs b2 (by rw [hl2]; omega))
+    refine ⟨⟨w, x.q.qtype % 65536, x.q.qclass % 65536⟩ :: l, ?_, .cons ⟨hcase, hex, rfl, rfl⟩ hfa⟩
+    simp only [List.length_cons, decodeQuestions, specQuestionAt, hd]
+    rw [specField16_some (by rw [hsz]; omega), specField16_some (by rw [hsz]; omega), e1, e2]
+    simp only [hl]
+
+theorem decodeRrs_chainC (s : State) (hw : WInv s) :
+    ∀ (rs : List RItC) (p e : Nat), RChainC s rs p e → e ≤ s.cursor → ∀ n, n ≤ rs.length →
+      ∃ l p', decodeRrs (s.octets.extract 0 s.cursor) n p = some (l, p') ∧
+        All2 RMatch (rs.take n) l ∧ RChainC s (rs.drop n) p' e := by
+  have hcs : s.cursor ≤ s.octets.size := Nat.le_trans hw.cur_av hw.av_size
+  have hsz := extract_size s.octets s.cursor hcs
+  intro rs
+  induction rs with
+  | nil =>
+    intro p e h _ n hn
+    have : n = 0 := by simpa using hn
+    subst this
+    exact ⟨[], p, rfl, .nil, h⟩
+  | cons x r ih =>
+    intro p e h he n hn
+    cases n with
+    | zero => exact ⟨[], p, rfl, .nil, h⟩
+    | succ n =>
+      obtain ⟨h1, ⟨hit, hnm, hby, hb⟩, h4⟩ := h
+      subst h1
+      obtain ⟨w, hd, hcase, hex⟩ := item_decodes_name hw hit hnm
+      have hle := rchainC_le h4
+      obtain ⟨l, p', hl, hfa, hch⟩ := ih _ _ h4 he n (by simpa using hn)
+      have hl2 : ∀ y, (u16be y).length = 2 := fun _ => rfl
+      obtain ⟨b12, b3⟩ := bytesAt_append hby
+      obtain ⟨b1, b2⟩ := bytesAt_append b12
+      simp only [List.length_append, hl2] at b2 b3
+      have e1 : be16 (s.octets.extract 0 s.cursor) (x.a + x.k) = x.r.ty % 65536 :=
+        be16_of_bytesAt_mod (bytesAt_extract_prefix hcs b1 (by rw [hl2]; omega))
+      have e2 : be16 (s.octets.extract 0 s.cursor) (x.a + x.k + 2) = x.r.cls % 65536 :=
+        be16_of_bytesAt_mod (bytesAt_extract_prefix hcs b2 (by rw [hl2]; omega))
+      have e3 : specField32 (s.octets.extract 0 s.cursor) (x.a + x.k + 4) = some (x.r.ttl % 4294967296) :=
+        specField32_of_bytesAt (bytesAt_extract_prefix hcs (by rw [show x.a + x.k + 4 = x.a + x.k + (2 + 2) by omega]; exact b3)
+          (by show _ + 4 ≤ _; omega))
+      have e8 : be16 (s.octets.extract 0 s.cursor) (x.a + x.k + 8) = x.rdlen := by
+        rw [be16_extract _ _ _ hcs (by omega)]; exact hb
+      cases hex2 : expandRdata (s.octets.extract 0 s.cursor) (x.r.ty % 65536) (x.a + x.k + 10) x.rdlen with
+      | some rd =>
+        refine ⟨⟨w, x.r.ty % 65536, x.r.cls % 65536, x.r.ttl % 4294967296, rd, x.a, true⟩ :: l, p', ?_,
+          .cons ⟨hcase, hex, rfl, rfl, rfl, rfl⟩ (by simpa using hfa), by simpa using hch⟩
+        simp only [decodeRrs, hd]
+        rw [specField16_some (by rw [hsz]; omega), specField16_some (by rw [hsz]; omega), e3,
+          specField16_some (by rw [hsz]; omega)]
+        simp only [e1, e2, e8]
+        rw [if_pos (by rw [hsz]; omega), hl]
+        simp only [hex2]
+      | none =>
+        refine ⟨⟨w, x.r.ty % 65536, x.r.cls % 65536, x.r.ttl % 4294967296,
+          ((s.octets.extract 0 s.cursor).extract (x.a + x.k + 10) (x.a + x.k + 10 + x.rdlen)).toList, x.a, false⟩ :: l,
+          p', ?_, .cons ⟨hcase, hex, rfl, rfl, rfl, rfl⟩ (by simpa using hfa), by simpa using hch⟩
+        simp only [decodeRrs, hd]
+        rw [specField16_some (by rw [hsz]; omega), specField16_some (by rw [hsz]; omega), e3,
+          specField16_some (by rw [hsz]; omega)]
+        simp only [e1, e2, e8]
+        rw [if_pos (by rw [hsz]; omega), hl]
+        simp only [hex2]
 
 end QV.Writer
